@@ -979,7 +979,14 @@ func (bc *BlockChain) WriteBlockWithState(block *types.Block, receipts []*types.
 		triedb.Reference(root, common.Hash{}) // metadata reference to keep trie alive
 		bc.triegc.Push(root, -int64(block.NumberU64()))
 
-		if current := block.NumberU64(); current > triesInMemory {
+		// The retention window ends right above the head: a block far above it (a side
+		// branch that survived a rewind and is being extended) must not garbage collect
+		// the head's state.
+		current := block.NumberU64()
+		if next := bc.CurrentBlock().NumberU64() + 1; next < current {
+			current = next
+		}
+		if current > triesInMemory {
 			// Find the next state trie we need to commit
 			header := bc.GetHeaderByNumber(current - triesInMemory)
 			if header == nil {
